@@ -131,6 +131,81 @@ def efield_refinement(api, results, fails, tag, orders):
                                   "electric potential: %s" % seq})
 
 
+def potential_kernel_sums(api, results, fails, tag):
+    """Potential operators on supports that are not a prefix of the element list (non-uniform areas, multipliers not
+    all 1) against a direct numpy kernel sum built from space.evaluate, the grid geometry and the Green's function."""
+    from bempp_cl.core import numba_kernels as nk
+    from bempp_cl.api.integration.triangle_gauss import rule
+    P = api.operators.potential
+    order = 3
+    api.GLOBAL_PARAMETERS.quadrature.regular = order
+    qp, qw = rule(order)
+    pts = np.array([[2.0, 0.25, 0.5], [-1.5, 1.0, -0.75], [0.1, 0.2, 3.0]]).T
+    refv = np.array([[0.0, 1.0, 0.0], [0.0, 0.0, 1.0]])
+    rng = np.random.default_rng(7)
+    cases = [("tet", ("RWG", 0, {"segments": [1], "include_boundary_dofs": True})),
+             ("octa", ("RWG", 0, {"support_elements": [1, 2, 3, 5, 6, 7]})),
+             ("octa", ("P", 1, {"support_elements": [1, 2, 3, 5, 6, 7]})),
+             ("cube12", ("DP", 1, {"segments": [1, 2]}))]
+    for (m, spec) in cases:
+        grid = bc.make_grid(m)
+        sp = bc.make_space(api, grid, spec)
+        if sp.global_dof_count == 0:
+            continue
+        gd = grid.data("double")
+        c = rng.integers(-4, 5, size=sp.global_dof_count) / 4.0 + 1j * rng.integers(-4, 5, size=sp.global_dof_count) / 4.0
+        k = 0.75 + 0.5j
+        kp = np.array([k.real, k.imag])
+        gf = api.GridFunction(sp, coefficients=c)
+        maxwell = spec[0] == "RWG"
+        direct = {}
+        names = ["efield", "mfield"] if maxwell else ["slp", "dlp"]
+        for nme in names:
+            direct[nme] = np.zeros((3 if maxwell else 1, pts.shape[1]), dtype=np.complex128)
+        jit = grid.jacobian_inverse_transposed
+        for e in sp.support_elements:
+            y = gd.local2global(e, qp)
+            vals = sp.evaluate(e, qp)
+            vv = sp.evaluate(e, refv)
+            wj = qw * grid.integration_elements[e]
+            nrm = np.repeat((grid.normals[e] * sp.normal_multipliers[e]).reshape(3, 1), len(qw), axis=1)
+            for t in range(pts.shape[1]):
+                x = pts[:, t].copy()
+                G = nk.helmholtz_single_layer_regular(x, y, np.zeros(3), nrm, kp)
+                if maxwell:
+                    d = x.reshape(3, 1) - y
+                    r = np.sqrt(np.sum(d * d, axis=0))
+                    gradG = G * (1j * k * r - 1) / (r * r) * d
+                    f = sum(vals[:, i, :] * c[sp.local2global[e, i]] for i in range(3))
+                    div = sum(((vv[:, i, 1] - vv[:, i, 0]) @ jit[e][:, 0] + (vv[:, i, 2] - vv[:, i, 0]) @ jit[e][:, 1])
+                              * c[sp.local2global[e, i]] for i in range(3))
+                    direct["efield"][:, t] += 1j * k * np.sum(G * f * wj, axis=1) - (1.0 / (1j * k)) * np.sum(gradG * div * wj, axis=1)
+                    direct["mfield"][:, t] += np.sum(np.cross(gradG.T, f.T).T * wj, axis=1)
+                else:
+                    u = sum(vals[0, i, :] * c[sp.local2global[e, i]] for i in range(vals.shape[1]))
+                    D = nk.helmholtz_double_layer_regular(x, y, np.zeros(3), nrm, kp)
+                    direct["slp"][0, t] += np.sum(G * u * wj)
+                    direct["dlp"][0, t] += np.sum(D * u * wj)
+        ops = {"efield": lambda: P.maxwell.electric_field(sp, pts, k), "mfield": lambda: P.maxwell.magnetic_field(sp, pts, k),
+               "slp": lambda: P.helmholtz.single_layer(sp, pts, k), "dlp": lambda: P.helmholtz.double_layer(sp, pts, k)}
+        for nme in names:
+            data = {"grid": m, "space": [spec[0], spec[1], spec[2]], "operator": nme, "k": str(k), "path": tag,
+                    "support": [int(e) for e in sp.support_elements]}
+            try:
+                val = np.asarray(ops[nme]().evaluate(gf))
+                err = rel(val, direct[nme])
+            except Exception as ex:
+                fails.append({"signature": "C07:exception:" + type(ex).__name__, "data": data,
+                              "what": "potential evaluation raised %r" % (ex,)})
+                continue
+            results["potential_kernel_sum/" + nme] = max(results.get("potential_kernel_sum/" + nme, 0.0), err)
+            results["n"] += 1
+            if not err <= 1e-10:
+                fails.append({"signature": "C07:potential-kernel-sum:" + nme, "data": dict(data, rel_err=err),
+                              "what": "%s potential on a non-prefix support differs from the direct kernel sum by %.2e"
+                                      % (nme, err)})
+
+
 def run(cfg):
     import bempp_cl.api as api
     strength = cfg.get("strength", "quick")
@@ -141,6 +216,7 @@ def run(cfg):
         run_pairs(api, quick_pairs if strength == "quick" else quick_pairs + [("octa", "fan4", (-3.0, 0.0, 0.5))],
                   results, fails, "python-body", 2)
         efield_refinement(api, results, fails, "python-body", (2, 4, 6))
+        potential_kernel_sums(api, results, fails, "python-body")
     if strength == "thorough":
         run_pairs(api, [("octa", "cube12", (3.0, 0.5, 0.25))], results, fails, "numba", 4)
         efield_refinement(api, results, fails, "numba", (2, 4, 6, 8))
